@@ -31,8 +31,11 @@ class St:
 
 
 class Machine:
-    def __init__(self, facts, state, child_result="Continue", new_payload="n"):
+    def __init__(self, facts, state, child_result="Continue", new_payload="n", fail_at=None):
         self.facts = facts
+        self.fail_at = fail_at
+        self.child_ops = 0
+        self.failed = None
         self.state = state  # St: content of self.state
         self.child_result = child_result
         self.new_payload = new_payload
@@ -108,6 +111,8 @@ class Machine:
                 return v[2]
             if v[0] == "result":
                 return v[1]
+            if v[0] in ("cf_break", "result_err"):
+                return ("opaque",)
             raise Unsupported("field %s of %s" % (n, v[0]))
         if isinstance(p, dict) and "d" in p:
             if v[0] == "st_live":
@@ -118,7 +123,7 @@ class Machine:
                 if v[1].variant != p["n"]:
                     raise Unsupported("downcast to %s of %r" % (p["n"], v[1]))
                 return ("downcast", v[1])
-            if v[0] in ("cf", "result", "option"):
+            if v[0] in ("cf", "result", "option", "cf_break", "result_err"):
                 return v
             raise Unsupported("downcast of " + v[0])
         raise Unsupported("projection " + str(p))
@@ -161,6 +166,8 @@ class Machine:
             return self.variant_index(PA_ADT, v[1])
         if v[0] == "cf":
             return 0
+        if v[0] in ("cf_break", "result_err"):
+            return 1
         if v[0] == "result":
             return 0
         if v[0] == "option":
@@ -286,6 +293,12 @@ class Machine:
         if tr.endswith("::EventSource") and name in ("register", "reregister", "unregister", "process_events", "before_sleep", "before_handle_events"):
             recv = args[0]
             if recv[0] == "ref" and isinstance(recv[1], tuple) and recv[1][0] == "payload":
+                k = self.child_ops
+                self.child_ops += 1
+                if self.fail_at is not None and k == self.fail_at:
+                    self.failed = (name, recv[1][1])
+                    self.events.append(("child-failed", name, recv[1][1]))
+                    return ("result_err",)
                 self.events.append(("child", name, recv[1][1]))
                 if name == "process_events":
                     return ("result", ("pa", self.child_result))
@@ -301,7 +314,13 @@ class Machine:
             v = args[0]
             if v[0] == "result":
                 return ("cf", "Continue", v[1])
+            if v[0] == "result_err":
+                return ("cf_break",)
             raise Unsupported("Try::branch of " + v[0])
+        if name == "from_residual":
+            return ("result_err",)
+        if name in ("map_err", "into", "from") and args and args[0][0] in ("result_err", "cf_break"):
+            return args[0]
         if name in ("deref", "deref_mut", "as_mut", "as_ref", "borrow", "borrow_mut"):
             return args[0]
         cb = cs.callee_body()
